@@ -16,7 +16,7 @@ EXPLANATION = ("verified checkers (shape, cover, order, independence: soundness 
                "equivalence by exhaustive evaluation after fill_blackbox")
 SHARD = 40
 HASHSEEDS = {"quick": [0, 1], "thorough": [0, 1, 2, 3]}
-WIDEN = 2          # rounds of extra cases when a proof obligation or the tie breaks without an oracle failure
+WIDEN = 1          # rounds of extra cases when a proof obligation or the tie breaks without an oracle failure
 KINDS = ["tree", "reconv", "reconv", "multi", "multi", "dag", "dag", "wide"]
 
 
@@ -29,6 +29,13 @@ def generate(rng, tier):
         kind = KINDS[i % len(KINDS)]
         d = U.gen_case_circuit(rng, kind)
         out.append({"fn": "list", "kind": kind, "circuit": d})
+    # name stress: names that are `_`-joins of other names (list form only: fill_blackbox has its own name rules)
+    for i in range(n // 4):
+        out.append({"fn": "list", "kind": "namejoin", "circuit": U.gen_namejoin(rng)})
+    # every multi-operand type with 3..5 operands, both forms (limit_fanin really changes the circuit)
+    for d in U.gen_wide_types():
+        out.append({"fn": "list", "kind": "widetype", "circuit": d})
+        out.append({"fn": "super", "kind": "widetype", "circuit": d})
     for i in range(n // 3):
         kind = KINDS[i % len(KINDS)]
         for _ in range(20):
@@ -136,8 +143,11 @@ def finding_signature(case, obs):
 
 
 def mutate_case(rng, case):
+    """small circuits of a random class (the framework asks for 40 per disagreeing case: keep them cheap)"""
+    if case.get("kind") == "namejoin" and case["fn"] == "list":
+        return {"fn": "list", "kind": "namejoin", "circuit": U.gen_namejoin(rng, max_nodes=12)}
     kind = rng.choice(KINDS)
-    d = U.gen_case_circuit(rng, kind, max_nodes=14 if case["fn"] == "super" else 22)
+    d = U.gen_case_circuit(rng, kind, max_nodes=10)
     if case["fn"] == "super":
         d = U.single_output(rng, d)
     return {"fn": case["fn"], "kind": kind, "circuit": d}
